@@ -838,6 +838,258 @@ def collapse_forwarders(j):
     return done
 
 
+def split_sig(sig):
+    """'fn(A, B<C, D>, E) -> R' -> (prefix up to and including '(', [inputs], rest from ')')"""
+    i = sig.index('fn(') + 3
+    depth = 0
+    parts, cur = [], ''
+    k = i
+    while k < len(sig):
+        c = sig[k]
+        if c in '(<[':
+            depth += 1
+        elif c in ')>]':
+            if depth == 0 and c == ')':
+                break
+            if not (c == '>' and k > 0 and sig[k - 1] == '-'):
+                depth -= 1
+        if c == ',' and depth == 0:
+            parts.append(cur.strip())
+            cur = ''
+        else:
+            cur += c
+        k += 1
+    if cur.strip():
+        parts.append(cur.strip())
+    return sig[:i], parts, sig[k:]
+
+
+def fold_const_switches(b, enums):
+    """in a body whose flag parameters are bound (`const_params`), a switch on such a flag (or on a single-assignment copy,
+    negation or discriminant of it) has one feasible target: it becomes a goto, so that the dead arm is no longer part of the
+    body's control-flow graph (call-graph rules then do not see calls that cannot happen)"""
+    cp = b.get('const_params') or {}
+    known = {}
+    for n, v in cp.items():
+        if v[0] == 'bool':
+            known[int(n)] = ('int', int(v[1]))
+        else:
+            known[int(n)] = ('enum', canon(v[1]), v[2])
+    ndefs = {}
+    borrowed = set()
+    for blk in b['blocks']:
+        for st in blk['stmts']:
+            if st['k'] == 'assign':
+                ndefs[st['lhs']['l']] = ndefs.get(st['lhs']['l'], 0) + 1
+                if st['rv']['k'] in ('ref', 'rawptr') and not st['rv']['p']['p'] and st['rv'].get('bk') not in ('shared', 'Shared', None):
+                    borrowed.add(st['rv']['p']['l'])
+        t = blk['term']
+        if t['k'] == 'call' and t.get('dest'):
+            ndefs[t['dest']['l']] = ndefs.get(t['dest']['l'], 0) + 1
+
+    def val(o):
+        if o.get('k') == 'const' and o.get('ty') == 'bool' and o.get('val') in ('0', '1'):
+            return ('int', int(o['val']))
+        if o.get('k') in ('copy', 'move') and not o['p']['p']:
+            return known.get(o['p']['l'])
+        return None
+
+    for _ in range(6):
+        grew = False
+        for blk in b['blocks']:
+            for st in blk['stmts']:
+                if st['k'] != 'assign' or st['lhs']['p'] or st['lhs']['l'] in known or ndefs.get(st['lhs']['l']) != 1 or st['lhs']['l'] in borrowed:
+                    continue
+                l = st['lhs']['l']
+                if l <= b.get('arg_count', 0):
+                    continue
+                rv = st['rv']
+                v = None
+                if rv['k'] == 'use':
+                    v = val(rv['o'])
+                elif rv['k'] == 'un' and rv.get('op') == 'Not':
+                    x = val(rv['a'])
+                    if x is not None and x[0] == 'int':
+                        v = ('int', 1 - x[1])
+                elif rv['k'] == 'discr' and not rv['p']['p'] and known.get(rv['p']['l'], (None,))[0] == 'enum':
+                    e = known[rv['p']['l']]
+                    for name, d in rv.get('variants') or []:
+                        if name == e[2]:
+                            v = ('int', int(d))
+                if v is not None:
+                    known[l] = v
+                    grew = True
+        if not grew:
+            break
+    for blk in b['blocks']:
+        t = blk['term']
+        if t['k'] == 'switch':
+            v = val(t['o'])
+            if v is not None and v[0] == 'int':
+                tgt = t.get('otherwise')
+                for tv, bb in t['targets']:
+                    if int(tv) == v[1]:
+                        tgt = bb
+                if tgt is not None:
+                    blk['term'] = {'k': 'goto', 'target': tgt, 'at': t.get('at')}
+
+
+
+def specialise_flags(j, cap=48):
+    """A crate-private helper that takes a flag (`bool`, or a private field-less enum such as `Side::{Send, Recv}`) which every one
+    of its call sites supplies as a compile-time constant is two helpers written as one (`cancel_signal(sig, recv_side)` for
+    `cancel_send_signal(sig)` / `cancel_recv_signal(sig)`).  Each (helper, constant) pair becomes a body of its own whose flag
+    parameter is bound to the constant (`const_params`), call sites drop the argument, and the unspecialised body - now
+    without callers - is removed.  Repeats, so that a flag handed down through several layers is resolved layer by layer.
+    Nothing is done for a helper that is public, implements a trait, is used as a function value, reassigns or borrows the
+    parameter, or has one call site whose argument is not a constant."""
+    enums = {}
+    for a in j['adts']:
+        if a.get('kind') == 'Enum' and a.get('variants') and not any(v['fields'] for v in a['variants']) and a.get('local', True):
+            enums[canon(a['name'])] = a
+
+    def all_bodies():
+        for b in j['bodies']:
+            yield b, b
+            for pb in b.get('promoted') or []:
+                yield pb, b
+
+    def assigns_of(b, l):
+        n = []
+        for blk in b['blocks']:
+            for st in blk['stmts']:
+                if st['k'] == 'assign' and st['lhs']['l'] == l and not st['lhs']['p']:
+                    n.append(st['rv'])
+                elif st['k'] == 'assign' and st['lhs']['l'] == l:
+                    n.append(None)
+            t = blk['term']
+            if t['k'] == 'call' and t.get('dest') and t['dest']['l'] == l:
+                n.append(None)
+        return n
+
+    def borrowed(b, l):
+        for blk in b['blocks']:
+            for st in blk['stmts']:
+                if st['k'] == 'assign' and st['rv']['k'] in ('ref', 'rawptr') and st['rv']['p']['l'] == l and not st['rv']['p']['p'] \
+                        and st['rv'].get('bk') not in ('shared', 'Shared', None):
+                    return True
+        return False
+
+    def const_of(b, o, depth=0):
+        if o.get('k') == 'const':
+            if o.get('ty') == 'bool' and o.get('val') in ('0', '1'):
+                return ('bool', o['val'])
+            return None
+        if o.get('k') not in ('copy', 'move') or o['p']['p'] or depth > 6:
+            return None
+        l = o['p']['l']
+        cp = b.get('const_params') or {}
+        if str(l) in cp:
+            return tuple(cp[str(l)])
+        if 1 <= l <= b.get('arg_count', 0):
+            return None
+        defs = assigns_of(b, l)
+        if len(defs) != 1 or defs[0] is None or borrowed(b, l):
+            return None
+        rv = defs[0]
+        if rv['k'] == 'use':
+            return const_of(b, rv['o'], depth + 1)
+        if rv['k'] == 'agg' and rv.get('ak') == 'adt' and canon(rv.get('name', '')) in enums and not rv.get('fields'):
+            return ('enum', rv['name'], rv['variant'])
+        return None
+
+    made = 0
+    for _round in range(8):
+        bodies = {b['key']: b for b in j['bodies']}
+        # function values (not calls) referring to a body: never specialised
+        fnvals = set()
+        for b, _ in all_bodies():
+            for blk in b['blocks']:
+                for st in blk['stmts']:
+                    if st['k'] == 'assign':
+                        for o in operands(st['rv']):
+                            if o.get('k') == 'const' and o.get('fn'):
+                                fnvals.add(o['fn'].get('path'))
+                t = blk['term']
+                if t['k'] == 'call':
+                    for o in t.get('args') or []:
+                        if o.get('k') == 'const' and o.get('fn'):
+                            fnvals.add(o['fn'].get('path'))
+        sites = {}
+        for b, owner in all_bodies():
+            for blk in b['blocks']:
+                t = blk['term']
+                if t['k'] == 'call' and t.get('fn') and t['fn'].get('path') in bodies:
+                    sites.setdefault(t['fn']['path'], []).append((b, t))
+        changed = False
+        for key, b in list(bodies.items()):
+            if b.get('def_kind') not in ('Fn', 'AssocFn') or b.get('impl_trait') or b.get('vis') == 'Public' or key in fnvals:
+                continue
+            if key in CANONICAL or not sites.get(key) or '{closure' in key:
+                continue
+            for i in range(1, b.get('arg_count', 0) + 1):
+                if str(i) in (b.get('const_params') or {}):
+                    continue
+                ty = nolt(b['locals'][i]['ty'])
+                if ty != 'bool' and canon(ty) not in enums:
+                    continue
+                if assigns_of(b, i) or borrowed(b, i):
+                    continue
+                # position of the parameter among the arguments still passed
+                live = [n for n in range(1, b['arg_count'] + 1) if str(n) not in (b.get('const_params') or {})]
+                pos = live.index(i)
+                vals = []
+                for cb, t in sites[key]:
+                    if len(t['args']) != len(live):
+                        vals = None
+                        break
+                    v = const_of(cb, t['args'][pos])
+                    if v is None:
+                        vals = None
+                        break
+                    vals.append(v)
+                if not vals or made + len(set(vals)) > cap:
+                    continue
+                pname = b['locals'][i].get('name') or ('arg%d' % i)
+                newkeys = {}
+                for v in sorted(set(vals)):
+                    nb = json.loads(json.dumps(b))
+                    suffix = '__%s_%s' % (pname, v[-1])
+                    nb['key'] = key + suffix
+                    if nb.get('name'):
+                        nb['name'] = nb['name'] + suffix
+                    nb['specialised_from'] = b.get('specialised_from') or key
+                    cp = dict(nb.get('const_params') or {})
+                    cp[str(i)] = list(v)
+                    nb['const_params'] = cp
+                    try:
+                        pre, ins, rest = split_sig(nb['sig'])
+                        if len(ins) == len(live):
+                            del ins[pos]
+                            nb['sig'] = pre + ', '.join(ins) + rest
+                    except Exception:
+                        pass
+                    fold_const_switches(nb, enums)
+                    j['bodies'].append(nb)
+                    newkeys[v] = nb['key']
+                    made += 1
+                for (cb, t), v in zip(sites[key], vals):
+                    t['fn'] = dict(t['fn'], path=newkeys[v], name=newkeys[v].split('::')[-1])
+                    if t['fn'].get('full'):
+                        t['fn']['full'] = t['fn']['full'] + '__%s_%s' % (pname, v[-1]) if '::<' not in t['fn']['full'].split('::')[-1] else t['fn']['full']
+                    t['fn'].pop('resolved', None)
+                    del t['args'][pos]
+                j['bodies'] = [x for x in j['bodies'] if x is not b]
+                changed = True
+                break
+            if changed:
+                break
+        if not changed:
+            break
+    return made
+
+
+
 def resolve(j):
     """returns {actual key: canonical key}; rewrites j in place"""
     try:
@@ -858,6 +1110,10 @@ def resolve(j):
         pass
     try:
         resolve_variants(j)
+    except Exception:
+        pass
+    try:
+        specialise_flags(j)
     except Exception:
         pass
     try:
